@@ -38,7 +38,7 @@ T = [
  ("C36","m2","transmit/shutdown_retry_demo_test.go",{"C36":"accepted_span_lost_at_shutdown"},"missed, then caught after strengthening","new fault: the fake Honeycomb answers batches around the shutdown with 429/503 + Retry-After (once per batch)"),
 ]
 for id_, m, dest, caught, first, strength in T:
-    src = f"/tmp/mutout/{id_}/{m}"
+    src = f"{os.environ.get('MUTOUT','/tmp/mutout')}/{id_}/{m}"
     dst = f"/verif/seeded/{id_}-{m}"
     os.makedirs(dst, exist_ok=True)
     shutil.copy(f"{src}/patch.diff", f"{dst}/patch.diff")
